@@ -99,13 +99,24 @@ class UdpNode(object):
         return out
 
 
-def check_send(total_len, mtu, obs, xfer_skip=0, polls_ms=()):
+def check_send(total_len, mtu, obs, xfer_skip=0, polls_ms=(), failed_first=False):
     node = UdpNode(mtu)
     problems = []
     try:
         bundle = make_bundle(total_len, seq=total_len % 97)
         for skip in range(xfer_skip):
-            node.agent._tx_id += 1
+            if isinstance(node.agent._tx_id, int):
+                node.agent._tx_id += 1
+        if failed_first:
+            # an earlier request that cannot be carried out (its peer name does not resolve): it fails by itself, the next request is
+            # served like any other
+            try:
+                node.call('send_bundle_data', dbus.ByteArray(b'\x9f\xff'), dbus.Dictionary({'address': 'no-such-host.example', 'port': dbus.Int32(4556)}, signature='sv'))
+            except Exception:  # pylint: disable=broad-except
+                pass
+            node.sim.run(200, until=lambda: bool(node.sim.world.callback_errors))
+            obs['sends_after_a_failed_request'] = obs.get('sends_after_a_failed_request', 0) + 1
+            del node.sim.world.callback_errors[:]
         node.call('send_bundle_data', dbus.ByteArray(bundle), dbus.Dictionary({'address': PEER[0], 'port': dbus.Int32(PEER[1])}, signature='sv'))
         if polls_ms:
             # other (non-transfer) messages of the agent go out on the same socket while the paced transfer is under way
@@ -362,6 +373,10 @@ def run_case(case):
                 problems, dgrams, _bundle = check_send(total, mtu, obs, xfer_skip=skip)
                 note(problems, 'send', dict(total=total, mtu=mtu, first_id=skip, datagrams=len(dgrams)), 'send|%d|%s|%d' % (total, mtu, skip),
                      nontrivial=len(dgrams) > 1)
+            if total <= 700 and (mtu is None or mtu % 3 == 0):
+                problems, dgrams, _bundle = check_send(total, mtu, obs, failed_first=True)
+                note(problems, 'send after a failed request', dict(total=total, mtu=mtu, datagrams=len(dgrams)), 'sendfail|%d|%s' % (total, mtu),
+                     nontrivial=len(dgrams) > 1)
             if mtu is not None and mtu < total:
                 polls = (0, 1, 3, 10, 40, 200, 1000, 5000)
                 problems, dgrams, _bundle = check_send(total, mtu, obs, polls_ms=polls)
@@ -527,6 +542,40 @@ def run_case(case):
             for rx_mtu in (40, rng.choice([mtu // 2, mtu - 1, mtu, 9000])):
                 note(check_receive(arrivals, {key: bundle}, obs, rx_mtu=rx_mtu), 'loop-rx-mtu', dict(total=total, mtu=mtu, rx_mtu=rx_mtu, n=len(arrivals)),
                      'loop-rx|%d|%d|%d|%d' % (total, mtu, rx_mtu, case['seed']))
+        # two bundles of equal length for one peer, the peer given once by name and once by address: both leave from the same socket,
+        # and a receiver that gets their segments interleaved must end up with both bundles
+        total2 = rng.choice([150, 300])
+        mtu2 = rng.choice([64, 80])
+        node = UdpNode(mtu2)
+        try:
+            node.sim.net.hosts['peer.example'] = PEER[0]
+            pair = [make_bundle(total2, seq=31), make_bundle(total2, seq=32)]
+            spell = ['peer.example', PEER[0]]
+            if rng.random() < 0.5:
+                spell.reverse()
+            for bundle2, addr in zip(pair, spell):
+                node.call('send_bundle_data', dbus.ByteArray(bundle2), dbus.Dictionary({'address': addr, 'port': dbus.Int32(PEER[1])}, signature='sv'))
+            t_start = node.sim.world.now_ns
+            node.sim.run(400000, until=lambda: node.sim.world.now_ns - t_start > (2 * total2 // 5 + 600) * 10 ** 9)
+            per = [[], []]
+            for dgram in node.sent_datagrams():
+                try:
+                    xid, tot, off, data = cw.parse_all(dgram).to_python()[2]
+                except Exception:  # pylint: disable=broad-except
+                    continue
+                which = 0 if pair[0][off:off + len(data)] == data else 1
+                per[which].append((('two-spellings', which), off, off + len(data), dgram, PEER))
+            obs['two_spellings_runs'] = obs.get('two_spellings_runs', 0) + 1
+        finally:
+            node.close()
+        if per[0] and per[1] and len(pair[0]) == len(pair[1]):
+            arrivals = []
+            for idx in range(max(len(per[0]), len(per[1]))):
+                for which in (0, 1):
+                    if idx < len(per[which]):
+                        arrivals.append(per[which][idx])
+            note(check_receive(arrivals, {('two-spellings', 0): pair[0], ('two-spellings', 1): pair[1]}, obs), 'two-spellings',
+                 dict(total=len(pair[0]), mtu=mtu2, n=len(arrivals)), 'spell|%d|%d|%d' % (total2, mtu2, case['seed']))
     elif kind == 'ranges':
         import portion
         import udpcl.agent
